@@ -45,6 +45,11 @@ pub use datatype::Verbatim;
 #[cfg(any(test, feature = "decode"))]
 pub use decode::Decode;
 
+#[cfg(flacenc_verif)]
+pub(crate) fn verif_encode_to_utf8like(val: u64) -> Option<Vec<u8>> {
+    bitrepr::encode_to_utf8like(val).ok().map(|v| v.to_vec())
+}
+
 #[cfg(test)]
 mod tests {
     use super::*;
